@@ -46,6 +46,8 @@ for name, edits in EDITS.items():
     out[name] = {'suite': t, 'checks': {}}
     for i in range(1, 21):
         pid = f'C{i:02d}'
+        if os.environ.get('BENIGN_CHECKS') and pid not in os.environ['BENIGN_CHECKS'].split(','):
+            continue
         env = dict(os.environ, TCHERAN_SRC=f'{WT}/src', VERIF_TARGET=TGT, VERIF_EVIDENCE_OUT='/tmp/benign-ev.json')
         t0 = time.time()
         c = subprocess.run(['./check.sh', pid, 'quick'], cwd=snap, env=env, capture_output=True, text=True)
@@ -53,6 +55,6 @@ for name, edits in EDITS.items():
         out[name]['checks'][pid] = {'exit': c.returncode, 'seconds': round(time.time() - t0, 1), 'first': first.strip()[:300]}
         if c.returncode != 0:
             print('  ', pid, 'EXIT', c.returncode, first.strip()[:200], flush=True)
-        json.dump(out, open(f'{snap}/benign_results.json', 'w'), indent=1)
+        json.dump(out, open(f'{snap}/' + ('benign_results_partial.json' if os.environ.get('BENIGN_CHECKS') else 'benign_results.json'), 'w'), indent=1)
     print(name, 'alarms:', [p for p, r in out[name]['checks'].items() if r['exit'] != 0], flush=True)
 sh(f'git -C /repo worktree remove --force {WT}')
